@@ -4,6 +4,7 @@ package it
 
 import (
 	"fmt"
+	"math"
 	"math/rand"
 	"sort"
 	"strings"
@@ -143,6 +144,43 @@ func IntTypedCases() [][3]string {
 			b = append(b, fmt.Sprint(j))
 		}
 		add(fmt.Sprintf("uint64 %d", n), drain(it.MoveNext, func() string { var k uint64 = it.Current().Key; return fmt.Sprint(k) }), strings.Join(b, " "))
+	}
+	// bounds beyond the range of int: only the first values are taken
+	for _, n := range []uint64{1 << 63, ^uint64(0)} {
+		it := seq.NewIntegerIter(n)
+		var b, c []string
+		for i := range n {
+			b = append(b, fmt.Sprint(i))
+			if len(b) == 3 {
+				break
+			}
+		}
+		for it.MoveNext() {
+			var k uint64 = it.Current().Key
+			c = append(c, fmt.Sprint(k))
+			if len(c) == 3 {
+				break
+			}
+		}
+		add(fmt.Sprintf("uint64 %d (first 3)", n), strings.Join(c, " "), strings.Join(b, " "))
+	}
+	{
+		n := ^uintptr(0)
+		it := seq.NewIntegerIter(n)
+		var b, c []string
+		for i := range n {
+			b = append(b, fmt.Sprint(i))
+			if len(b) == 3 {
+				break
+			}
+		}
+		for it.MoveNext() {
+			c = append(c, fmt.Sprint(it.Current().Key))
+			if len(c) == 3 {
+				break
+			}
+		}
+		add("uintptr max (first 3)", strings.Join(c, " "), strings.Join(b, " "))
 	}
 	for _, n := range []Level{0, 4} {
 		it := seq.NewIntegerIter(n)
@@ -406,6 +444,41 @@ func MapTypedNative(n int) string {
 		b = append(b, fmt.Sprintf("%v:%v", k, v))
 	}
 	return canon(b)
+}
+
+// keys that are not equal to themselves (NaN): every entry is visited, although no lookup can find it;
+// float, complex, interface and struct keys
+func MapNaNCases() [][3]string {
+	nan := math.NaN()
+	var out [][3]string
+	{
+		m := map[float64]string{1.5: "a", 2.5: "b"}
+		m[nan] = "x"
+		m[nan] = "y"
+		var b, c []string
+		for k, v := range m {
+			b = append(b, fmt.Sprintf("%v:%v", k, v))
+		}
+		it := seq.NewMapIter(m)
+		for it.MoveNext() {
+			c = append(c, fmt.Sprintf("%v:%v", it.Current().Key, it.Current().Val))
+		}
+		out = append(out, [3]string{"float64 keys with NaN", canon(c), canon(b)})
+	}
+	{
+		m := map[any]int{"s": 1, nan: 2, [2]float64{nan, 1}: 3, complex(nan, 0): 4}
+		m[nan] = 5
+		var b, c []string
+		for k, v := range m {
+			b = append(b, fmt.Sprintf("%v:%v", k, v))
+		}
+		it := seq.NewMapIter(m)
+		for it.MoveNext() {
+			c = append(c, fmt.Sprintf("%v:%v", it.Current().Key, it.Current().Val))
+		}
+		out = append(out, [3]string{"interface keys with NaN", canon(c), canon(b)})
+	}
+	return out
 }
 
 // nil map
